@@ -22,20 +22,26 @@ SameValue(x, y) == /\ x.t = y.t
 \* the expectation stays inside the domain of the property
 InDomain(s, e) == CopiersPresent(s, e) /\ Unambiguous(WouldBe(s, e))
 
+\* a recording reporter (mode rec) does not end the test: the log line of a failing step carries everything the step
+\* reported (reps: the categories in order).  One deviation is reported once; actualCall may meet two (the previous call of
+\* the scope cannot be completed, and the new call is itself unexpected)
+Reps(max) == "reps" \in DOMAIN E => Len(E.reps) \in 1..max
+StuckBefore(s) == ~failed /\ ms[s].live /\ Finish(ms[s]).cats # {}
+
 TNext ==
     \/ Is("expect") /\ InDomain(E.s, E.e) /\ Expect(E.s, E.e) /\ res'.k = E.r
-    \/ Is("begin") /\ Begin(E.s, E.fn) /\ res'.k = E.r
-    \/ Is("param") /\ Param(E.s, E.k, E.v) /\ res'.k = E.r
-    \/ Is("outparam") /\ OutParam(E.s, E.k, E.ty) /\ res'.k = E.r
-    \/ Is("object") /\ OnObject(E.s, E.o) /\ res'.k = E.r
-    \/ /\ Is("ret") /\ ReturnValue(E.s, E.g, E.od, E.d, E.via) /\ res'.k = E.r
+    \/ Is("begin") /\ Begin(E.s, E.fn) /\ res'.k = E.r /\ Reps(IF StuckBefore(E.s) THEN 2 ELSE 1)
+    \/ Is("param") /\ Param(E.s, E.k, E.v) /\ res'.k = E.r /\ Reps(1)
+    \/ Is("outparam") /\ OutParam(E.s, E.k, E.ty) /\ res'.k = E.r /\ Reps(1)
+    \/ Is("object") /\ OnObject(E.s, E.o) /\ res'.k = E.r /\ Reps(1)
+    \/ /\ Is("ret") /\ ReturnValue(E.s, E.g, E.od, E.d, E.via) /\ res'.k = E.r /\ Reps(1)
        /\ E.r = "ok" => /\ res'.has = E.has
                         /\ (E.has \/ E.g # "value") => SameValue(res'.val, E.val)
                         /\ \A k \in DOMAIN res'.outs : k \in DOMAIN E.outs /\ E.outs[k] = res'.outs[k]
-    \/ Is("left") /\ Left /\ res'.k = E.r /\ (E.r = "ok" => res'.left = E.left)
+    \/ Is("left") /\ Left /\ res'.k = E.r /\ (E.r = "ok" => res'.left = E.left) /\ ((~failed /\ "reps" \in DOMAIN E) => LeftReportsOK(E.reps))
     \/ Is("setdata") /\ SetData(E.s, E.k, E.v) /\ res'.k = E.r
     \/ Is("getdata") /\ GetData(E.s, E.k) /\ res'.k = E.r /\ (E.r = "ok" => SameValue(res'.val, E.val))
-    \/ Is("check") /\ Check /\ res'.k = E.r
+    \/ Is("check") /\ Check /\ res'.k = E.r /\ ((~failed /\ "reps" \in DOMAIN E) => CheckReportsOK(E.reps))
     \/ Is("clear") /\ Clear /\ res'.k = E.r
     \/ Is("disable") /\ Disable /\ res'.k = E.r
     \/ Is("enable") /\ Enable /\ res'.k = E.r
@@ -44,8 +50,8 @@ TNext ==
     \/ Is("installcmp") /\ E.md \in CmpModes /\ InstallComparator(E.s, E.tn, E.md) /\ res'.k = E.r
     \/ Is("installcpy") /\ E.md \in CpyModes /\ InstallCopier(E.s, E.tn, E.md) /\ res'.k = E.r
     \/ Is("removeall") /\ RemoveAll(E.s) /\ res'.k = E.r
-    \* the end of the test: the verdict, and (inside a real test) how many failures the test recorded
-    \/ Is("end") /\ End /\ res'.k = E.r /\ (E.mode # "rec" => EndCountOK(E.r, E.vcount))
+    \* the end of the test: the verdict, and the failures the test recorded (inside a real test: in its TestResult), in order
+    \/ Is("end") /\ End /\ res'.k = E.r /\ Len(E.reps) = E.vcount /\ EndReportsOK(E.reps)
 \* executions are concatenated with reset lines (cleared mock)
 TReset == Is("reset") /\ ms' = FreshScopes /\ created' = <<>> /\ failed' = FALSE /\ why' = "" /\ last' = "init" /\ res' = Ok
 TSpec == (Init /\ l = 1) /\ [][TNext \/ TReset]_tvars
